@@ -16,7 +16,9 @@ def units(tier):
 
 
 def bounded(tier, seed):
-    return []
+    from vf.bounded import Bounded
+    from rc import faults
+    return [Bounded("C13/fault-enumeration", faults.run, tier=tier)]
 
 
 MANIFEST = dict(
